@@ -21,6 +21,8 @@ RULE = ("(repro) generated programs of up to 8 operations from {construct(type, 
         "parameters of every network are bit-identical to the snapshot and requires_grad is still False; mutating ops (fit, "
         "reinitialise, load) refresh the snapshot. Non-trivial = (repro) program contains a fit and a sampling op; (readonly) >= 4 "
         "distinct read-only ops.")
+RULE_EXT = ('Extended as built: seed forms (positional / keyword / numpy integer / cpu+gpu flags / defaults), SWAP observables, seed sensitivity also after loading an older file, read-only programs on states with a non-zero phase auxiliary bias.')
+RULE = RULE + " " + RULE_EXT
 ASSUMPTIONS = ["CPU generator only (set_random_seed(cpu=True)); a single process", "bitwise comparison (torch.equal / ==)"]
 
 OBSN = ["SigmaZ", "SigmaX", "NI", "composite", "SWAP"]
